@@ -1,49 +1,76 @@
-(* C15_total: on every byte string the configuration parsers return Ok or Err; the only C
-   undefined behaviour the model can reach is the signed overflow of atoi() on an over-long
-   digit string (witnessed in Witness.v).  In particular no write past char lookupstr[32], and no
-   read or write past any of the fixed-size string buffers (those are length-checked by
-   fetch_string, which fails instead). *)
-From CAres.Config Require Import Spec.
+(* C15_total: on every byte string the configuration parsers return Ok or Err, never a C
+   undefined behaviour: no write past char lookupstr[32], no read or write past any of the
+   fixed-size string buffers (those are length-checked by fetch_string, which fails instead), and
+   every atoi() call is on a digit string of at most 9 digits (fixes/C15-bounded-atoi.patch). *)
+From CAres.Config Require Import Spec Lines_proofs.
 From CAres.Gen Require Import Consts.
 Local Open Scope N_scope.
 
-Definition ub_only_overflow {A} (m : outcome A) : Prop := forall k, m = UB k -> k = SignedOverflow.
+Definition no_ub {A} (m : outcome A) : Prop := forall k, m <> UB k.
 
-Lemma ub_ok {A} (a : A) : ub_only_overflow (Ok a).
+Lemma ub_ok {A} (a : A) : no_ub (Ok a).
 Proof. intros k H; discriminate. Qed.
-Lemma ub_err {A} s : ub_only_overflow (@Err A s).
+Lemma ub_err {A} s : no_ub (@Err A s).
 Proof. intros k H; discriminate. Qed.
-Lemma ub_ub {A} : ub_only_overflow (@UB A SignedOverflow).
-Proof. intros k H; inversion H; reflexivity. Qed.
 Lemma ub_bind {A B} (m : outcome A) (f : A -> outcome B) :
-  ub_only_overflow m -> (forall a, ub_only_overflow (f a)) -> ub_only_overflow (bind m f).
-Proof. intros Hm Hf k. destruct m as [a|s|k']; simpl; intros H; [eapply Hf; eauto|discriminate|inversion H; subst; apply Hm; reflexivity]. Qed.
-Lemma ub_guard {A} b k0 (m : outcome A) : b = true -> ub_only_overflow m -> ub_only_overflow (guard b k0 m).
+  no_ub m -> (forall a, no_ub (f a)) -> no_ub (bind m f).
+Proof. intros Hm Hf k. destruct m as [a|s|k']; simpl; intros H; [eapply Hf; eauto|discriminate|exact (Hm k' eq_refl)]. Qed.
+Lemma ub_guard {A} b k0 (m : outcome A) : b = true -> no_ub m -> no_ub (guard b k0 m).
 Proof. intros -> H. exact H. Qed.
 
-#[local] Hint Resolve ub_ok ub_err ub_ub : ub.
+#[local] Hint Resolve ub_ok ub_err : ub.
 
 Ltac ub_step :=
   match goal with
-  | |- ub_only_overflow (Ok _) => apply ub_ok
-  | |- ub_only_overflow (Err _) => apply ub_err
-  | |- ub_only_overflow (UB SignedOverflow) => apply ub_ub
-  | |- ub_only_overflow (bind _ _) => apply ub_bind; [|intros]
-  | |- ub_only_overflow (if ?b then _ else _) => destruct b
-  | |- ub_only_overflow (match ?x with _ => _ end) => destruct x
-  | |- ub_only_overflow (let (_, _) := ?p in _) => destruct p
+  | |- no_ub (Ok _) => apply ub_ok
+  | |- no_ub (Err _) => apply ub_err
+  | |- no_ub (bind _ _) => apply ub_bind; [|intros]
+  | |- no_ub (if ?b then _ else _) => destruct b
+  | |- no_ub (match ?x with _ => _ end) => destruct x
+  | |- no_ub (let (_, _) := ?p in _) => destruct p
   end.
 
-Lemma ub_atoi s : ub_only_overflow (atoi s).
-Proof. unfold atoi. repeat ub_step. Qed.
+(* atoi on a digit string of at most 9 digits *)
+Lemma ub_atoi s : forallb isdigit s = true -> (length s <= 9)%nat -> no_ub (atoi s).
+Proof. intros H L. destruct (atoi_digits s H L) as [-> _]. apply ub_ok. Qed.
 
-Lemma ub_fetch_string n s : ub_only_overflow (fetch_string n s).
+Lemma str_isnum_digits s : str_isnum s = true -> forallb isdigit s = true.
+Proof. unfold str_isnum. intros H. apply andb_true_iff in H as [_ H]. exact H. Qed.
+
+Ltac ub_len :=
+  match goal with
+  | H : (_ <? length ?s)%nat = false |- (length ?s <= 9)%nat => apply Nat.ltb_ge in H; lia
+  end.
+
+(* like ub_step but keeps the equations, and knows the guarded atoi calls *)
+Ltac ub_step_eq :=
+  match goal with
+  | |- no_ub (Ok _) => apply ub_ok
+  | |- no_ub (Err _) => apply ub_err
+  | |- no_ub (bind (atoi ?s) _) =>
+    apply ub_bind; [apply ub_atoi; [first [assumption | apply str_isnum_digits; assumption] | ub_len] | intros]
+  | |- no_ub (bind _ _) => apply ub_bind; [|intros]
+  | |- no_ub (if ?b then _ else _) => destruct b eqn:?
+  | |- no_ub (match ?x with _ => _ end) => destruct x eqn:?
+  | |- no_ub (let (_, _) := ?p in _) => destruct p eqn:?
+  end.
+
+Lemma ub_fetch_atoi {A} n ds (f : bytes -> Z -> outcome A) :
+  forallb isdigit ds = true -> (n <= 10)%nat -> (forall ps p, no_ub (f ps p)) ->
+  no_ub (do ps <- fetch_string n ds; do p <- atoi ps; f ps p).
+Proof.
+  intros Hd Hn Hf. unfold fetch_string. destruct (Nat.ltb_spec (n - 1) (length ds)); [apply ub_err|].
+  destruct (forallb isprint ds); [|apply ub_err]. cbn [bind].
+  apply ub_bind; [apply ub_atoi; [exact Hd|lia]|]. intros p. apply Hf.
+Qed.
+
+Lemma ub_fetch_string n s : no_ub (fetch_string n s).
 Proof. unfold fetch_string. repeat ub_step. Qed.
 
-Lemma ub_buf_split_str d t n c m l : ub_only_overflow (buf_split_str d t n c m l).
+Lemma ub_buf_split_str d t n c m l : no_ub (buf_split_str d t n c m l).
 Proof. unfold buf_split_str. repeat ub_step. Qed.
 
-#[local] Hint Resolve ub_atoi ub_fetch_string ub_buf_split_str : ub.
+#[local] Hint Resolve ub_fetch_string ub_buf_split_str : ub.
 
 (* ---- config_lookup: the lookupstr[32] writes ---- *)
 Lemma lookup_char_vals v ch : lookup_char v = Some ch -> ch = 98 \/ ch = 102.
@@ -59,7 +86,7 @@ Proof.
 Qed.
 
 Lemma lookup_fold_ub vals : forall acc,
-  NoDup acc -> incl acc [98; 102] -> ub_only_overflow (lookup_fold vals acc).
+  NoDup acc -> incl acc [98; 102] -> no_ub (lookup_fold vals acc).
 Proof.
   induction vals as [|v r IH]; intros acc Hnd Hin; simpl; [apply ub_ok|].
   destruct (lookup_char v) as [ch|] eqn:Ech; [|apply IH; assumption].
@@ -73,30 +100,30 @@ Proof.
     + apply incl_app; [exact Hin|]. intros x [<-|[]]. destruct (lookup_char_vals _ _ Ech) as [->| ->]; simpl; auto.
 Qed.
 
-Lemma ub_config_lookup cfg buf seps : ub_only_overflow (config_lookup cfg buf seps).
+Lemma ub_config_lookup cfg buf seps : no_ub (config_lookup cfg buf seps).
 Proof.
   unfold config_lookup. destruct (buf_split_str seps true false false 0 buf); try apply ub_ok.
   apply ub_bind; [apply lookup_fold_ub; [constructor|intros x []]|]. intros ls. destruct ls; apply ub_ok.
 Qed.
 
-Lemma ub_config_search cfg s n : ub_only_overflow (config_search cfg s n).
+Lemma ub_config_search cfg s n : no_ub (config_search cfg s n).
 Proof. unfold config_search. repeat ub_step. Qed.
 
-Lemma ub_process_option cfg o : ub_only_overflow (process_option cfg o).
+Lemma ub_process_option cfg o : no_ub (process_option cfg o).
 Proof. unfold process_option. apply ub_bind; [apply ub_buf_split_str|]. intros kv. repeat ub_step. Qed.
 
-Lemma ub_set_options_loop opts : forall cfg, ub_only_overflow (set_options_loop cfg opts).
+Lemma ub_set_options_loop opts : forall cfg, no_ub (set_options_loop cfg opts).
 Proof.
   induction opts as [|o r IH]; intros cfg; simpl; [apply ub_ok|].
   pose proof (ub_process_option cfg o) as H. destruct (process_option cfg o) as [c'|s|k]; [apply IH| |].
   - destruct (s =? ARES_ENOMEM)%Z; [apply ub_err|apply IH].
-  - rewrite (H k eq_refl). apply ub_ub.
+  - exfalso. exact (H k eq_refl).
 Qed.
 
-Lemma ub_set_options cfg s : ub_only_overflow (set_options cfg s).
-Proof. unfold set_options. destruct s; [apply ub_err|apply ub_set_options_loop]. Qed.
+Lemma ub_set_options cfg s : no_ub (set_options cfg s).
+Proof. unfold set_options. destruct s; [apply ub_ok|apply ub_set_options_loop]. Qed.
 
-Lemma ub_init_by_environment cfg l r : ub_only_overflow (init_by_environment cfg l r).
+Lemma ub_init_by_environment cfg l r : no_ub (init_by_environment cfg l r).
 Proof.
   unfold init_by_environment. apply ub_bind.
   - destruct l; [apply ub_config_search|apply ub_ok].
@@ -108,51 +135,65 @@ Qed.
 Section WithNet.
 Variable nf : netfns.
 
-Lemma ub_parse_sort e : ub_only_overflow (parse_sort nf e).
+Lemma ub_parse_sort e : no_ub (parse_sort nf e).
 Proof.
   unfold parse_sort.
-  repeat first [ub_step | apply ub_fetch_string | apply ub_atoi].
+  repeat first [ub_step_eq | apply ub_fetch_string].
 Qed.
 
-Lemma ub_parse_sort_entries es : forall acc, ub_only_overflow (parse_sort_entries nf es acc).
+Lemma ub_parse_sort_entries es : forall acc, no_ub (parse_sort_entries nf es acc).
 Proof.
   induction es as [|e r IH]; intros acc; simpl; [apply ub_ok|].
   pose proof (ub_parse_sort e) as H. destruct (parse_sort nf e) as [p|s|k]; [apply IH| |].
   - destruct (s =? ARES_ENOTFOUND)%Z; [apply IH|apply ub_err].
-  - rewrite (H k eq_refl). apply ub_ub.
+  - exfalso. exact (H k eq_refl).
 Qed.
 
-Lemma ub_parse_sortlist s : ub_only_overflow (parse_sortlist nf s).
+Lemma ub_parse_sortlist s : no_ub (parse_sortlist nf s).
 Proof. unfold parse_sortlist. destruct s; [apply ub_err|apply ub_parse_sort_entries]. Qed.
 
-Definition uri_ub_only_overflow (r : uri_res) : Prop := forall k, r = UriUB k -> k = SignedOverflow.
+Definition uri_no_ub (r : uri_res) : Prop := forall k, r <> UriUB k.
 
-Lemma ub_parse_nameserver_uri e : uri_ub_only_overflow (parse_nameserver_uri nf e).
+Lemma ub_parse_nameserver_uri e : uri_no_ub (parse_nameserver_uri nf e).
 Proof.
-  unfold parse_nameserver_uri, uri_ub_only_overflow. intros k.
+  unfold parse_nameserver_uri, uri_no_ub. intros k.
   repeat match goal with
          | |- context [match ?x with _ => _ end] =>
            match x with
-           | atoi ?v => let H := fresh "H" in pose proof (ub_atoi v) as H; destruct (atoi v) eqn:?
+           | atoi ?v => fail 1
            | _ => destruct x eqn:?
            end
-         end; intros Hk; try discriminate.
-  inversion Hk; subst. match goal with H : ub_only_overflow (UB _) |- _ => apply H; reflexivity end.
+         | |- context [if ?b then _ else _] => destruct b eqn:?
+         end; try discriminate.
+  all: match goal with H : negb (str_isnum ?v) || (5 <? length ?v)%nat = false |- _ =>
+    let H1 := fresh in let H2 := fresh in
+    apply orb_false_iff in H as [H1 H2]; apply negb_false_iff in H1; apply Nat.ltb_ge in H2;
+    destruct (atoi_digits v (str_isnum_digits v H1) ltac:(lia)) as [-> _] end.
+  all: discriminate.
 Qed.
 
-Lemma ub_parse_nameserver e : ub_only_overflow (parse_nameserver nf e).
+Lemma ub_parse_nameserver e : no_ub (parse_nameserver nf e).
 Proof.
   unfold parse_nameserver.
-  repeat first [ub_step | apply ub_fetch_string | apply ub_atoi].
+  apply ub_bind; [repeat first [ub_step_eq | apply ub_fetch_string]|]. intros ipr. cbv zeta.
+  destruct (nf_pton nf (fst ipr)); [|apply ub_err].
+  apply ub_bind.
+  { destruct (match snd ipr with c :: _ => c =? ch_colon | [] => false end); [|apply ub_ok]. cbv zeta.
+    destruct (fst (span isdigit (tl (snd ipr)))) as [|d0 dr] eqn:Ed; [apply ub_err|].
+    apply (ub_fetch_atoi 6 (d0 :: dr) (fun _ p => Ok (u16 p, snd (span isdigit (tl (snd ipr)))))); [|lia|intros; apply ub_ok].
+    rewrite <- Ed. apply span_fst_forall. }
+  intros pr. cbv zeta.
+  apply ub_bind; [repeat first [ub_step_eq | apply ub_fetch_string]|]. intros ir.
+  repeat ub_step_eq.
 Qed.
 
-Lemma ub_sconfig_linklocal ifs i : ub_only_overflow (sconfig_linklocal ifs i).
-Proof. unfold sconfig_linklocal. repeat first [ub_step | apply ub_atoi]. Qed.
+Lemma ub_sconfig_linklocal ifs i : no_ub (sconfig_linklocal ifs i).
+Proof. unfold sconfig_linklocal. repeat ub_step_eq. Qed.
 
-Lemma ub_sconfig_append ifs l a u t i : ub_only_overflow (sconfig_append ifs l a u t i).
+Lemma ub_sconfig_append ifs l a u t i : no_ub (sconfig_append ifs l a u t i).
 Proof. unfold sconfig_append. repeat first [ub_step | apply ub_sconfig_linklocal]. Qed.
 
-Lemma ub_append_entries ifs ign es : forall l, ub_only_overflow (append_entries nf ifs ign es l).
+Lemma ub_append_entries ifs ign es : forall l, no_ub (append_entries nf ifs ign es l).
 Proof.
   induction es as [|e r IH]; intros l; simpl; [apply ub_ok|].
   pose proof (ub_parse_nameserver_uri e) as Hu. destruct (parse_nameserver_uri nf e) as [s| | |k].
@@ -160,15 +201,15 @@ Proof.
   - pose proof (ub_parse_nameserver e) as Hn. destruct (parse_nameserver nf e) as [s|st|k].
     + apply ub_bind; [apply ub_sconfig_append|]. intros l'. apply IH.
     + destruct ign; [apply IH|apply ub_err].
-    + rewrite (Hn k eq_refl). apply ub_ub.
+    + exfalso. exact (Hn k eq_refl).
   - apply ub_err.
-  - rewrite (Hu k eq_refl). apply ub_ub.
+  - exfalso. exact (Hu k eq_refl).
 Qed.
 
-Lemma ub_sconfig_append_fromstr ifs l s ign : ub_only_overflow (sconfig_append_fromstr nf ifs l s ign).
+Lemma ub_sconfig_append_fromstr ifs l s ign : no_ub (sconfig_append_fromstr nf ifs l s ign).
 Proof. unfold sconfig_append_fromstr. destruct s; [apply ub_err|apply ub_append_entries]. Qed.
 
-Lemma ub_resolv_dispatch fx ifs cfg o r v : ub_only_overflow (resolv_dispatch nf fx ifs cfg o r v).
+Lemma ub_resolv_dispatch fx ifs cfg o r v : no_ub (resolv_dispatch nf fx ifs cfg o r v).
 Proof.
   unfold resolv_dispatch.
   destruct (kw o k_domain). { destruct (s_domains cfg); [apply ub_config_search|apply ub_ok]. }
@@ -177,17 +218,17 @@ Proof.
   destruct (kw o k_nameserver).
   { pose proof (ub_sconfig_append_fromstr ifs (s_sconfig cfg) v true) as H.
     destruct (sconfig_append_fromstr nf ifs (s_sconfig cfg) v true); [apply ub_ok|apply ub_err|].
-    rewrite (H k eq_refl). apply ub_ub. }
+    exfalso. exact (H k eq_refl). }
   destruct (kw o k_sortlist).
   { pose proof (ub_parse_sortlist v) as H.
     destruct (parse_sortlist nf v) as [l|s|k].
     - destruct l; apply ub_ok.
     - destruct (s =? ARES_ENOMEM)%Z; [apply ub_err|apply ub_ok].
-    - rewrite (H k eq_refl). apply ub_ub. }
+    - exfalso. exact (H k eq_refl). }
   destruct (kw o k_options); [apply ub_set_options|apply ub_ok].
 Qed.
 
-Theorem ub_parse_resolv_line fx ifs cfg l : ub_only_overflow (parse_resolv_line_gen nf fx ifs cfg l).
+Theorem ub_parse_resolv_line fx ifs cfg l : no_ub (parse_resolv_line_gen nf fx ifs cfg l).
 Proof.
   unfold parse_resolv_line_gen. destruct l as [|c r]; [apply ub_ok|].
   destruct ((c =? ch_hash) || (c =? ch_semi)); [apply ub_ok|].
@@ -198,7 +239,7 @@ Proof.
   destruct (str_trim v0); [apply ub_ok|apply ub_resolv_dispatch].
 Qed.
 
-Lemma ub_parse_db_line d seps cfg l : ub_only_overflow (parse_db_line d seps cfg l).
+Lemma ub_parse_db_line d seps cfg l : no_ub (parse_db_line d seps cfg l).
 Proof.
   unfold parse_db_line. destruct l as [|c r]; [apply ub_ok|].
   destruct (c =? ch_hash); [apply ub_ok|].
@@ -206,16 +247,16 @@ Proof.
   destruct (fetch_string 32 a) as [o| |]; try apply ub_ok. destruct (kw o k_hosts); [apply ub_config_lookup|apply ub_ok].
 Qed.
 
-Lemma ub_process_lines cb : (forall c l, ub_only_overflow (cb c l)) -> forall ls cfg, ub_only_overflow (process_lines cb cfg ls).
+Lemma ub_process_lines cb : (forall c l, no_ub (cb c l)) -> forall ls cfg, no_ub (process_lines cb cfg ls).
 Proof.
   intros Hcb. induction ls as [|l r IH]; intros cfg; simpl; [apply ub_ok|].
   apply ub_bind; [apply Hcb|]. intros c. apply IH.
 Qed.
 
-Lemma ub_process_file cb : (forall c l, ub_only_overflow (cb c l)) -> forall cfg f, ub_only_overflow (process_file cb cfg f).
+Lemma ub_process_file cb : (forall c l, no_ub (cb c l)) -> forall cfg f, no_ub (process_file cb cfg f).
 Proof. intros Hcb cfg [content|]; [apply ub_process_lines; exact Hcb|apply ub_ok]. Qed.
 
-Theorem ub_init_sysconfig_files ifs cfg fs : ub_only_overflow (init_sysconfig_files nf ifs cfg fs).
+Theorem ub_init_sysconfig_files ifs cfg fs : no_ub (init_sysconfig_files nf ifs cfg fs).
 Proof.
   unfold init_sysconfig_files.
   apply ub_bind; [apply ub_process_file; intros; apply ub_parse_resolv_line|]. intros c1.
@@ -225,7 +266,7 @@ Proof.
 Qed.
 
 (* everything ares_init_by_sysconfig reads: files, then environment *)
-Theorem ub_read_sysconfig ifs e : ub_only_overflow (read_sysconfig nf ifs e).
+Theorem ub_read_sysconfig ifs e : no_ub (read_sysconfig nf ifs e).
 Proof.
   unfold read_sysconfig. apply ub_bind; [apply ub_init_sysconfig_files|]. intros s. apply ub_init_by_environment.
 Qed.
